@@ -154,7 +154,12 @@ class Spy:
             self._wrap(cls)
 
         def from_arg_spy(factory_class, arg):
-            res = spy.orig_from_arg(factory_class, arg)
+            try:
+                res = spy.orig_from_arg(factory_class, arg)
+            except Exception as e:  # noqa: BLE001
+                if not hasattr(e, "_c08_origin"):
+                    e._c08_origin = "from_arg"
+                raise
             if spy.frames:
                 cur = spy.frames[-1]["current"]
                 for k in list(cur):
@@ -193,6 +198,16 @@ class Spy:
             del spy.attempts[:-50]
             try:
                 target(self_, *args, **kwargs)
+            except Exception as e:  # noqa: BLE001
+                if not hasattr(e, "_c08_origin"):
+                    # raised by the statements of this constructor (value checks), or while binding its arguments?
+                    tb, inside = e.__traceback__, False
+                    while tb is not None:
+                        if orig is not None and tb.tb_frame.f_code is getattr(orig, "__code__", None):
+                            inside = True
+                        tb = tb.tb_next
+                    e._c08_origin = "body" if inside else "bind"
+                raise
             finally:
                 spy.frames.pop()
             spy.desc[id(self_)] = (type(self_), list(frame["current"].items()))
@@ -484,7 +499,8 @@ class Gen:
                         kw.append((p, ("plain", None)))
                     continue
                 u = r.random()
-                sub = self.cfg(n["family"], depth + 1)
+                # the family the annotation names (what a user reads); the call's family if there is none
+                sub = self.cfg(n["annotated"] if n.get("annotated") is not None else n["family"], depth + 1)
                 if sub is None:
                     ok = False
                     break
@@ -531,7 +547,7 @@ class Gen:
             out = ("ok", self.spy.describe(obj))
             same = obj
         except Exception as e:  # noqa: BLE001
-            out = ("err", exn_kind(e))
+            out = ("err", exn_kind(e), getattr(e, "_c08_origin", "alias"))
             same = None
         mutated = before is not None and before != arg
         return out, mutated, same
@@ -548,7 +564,7 @@ class Gen:
         r = self.r
         w = self.w
         choice = r.choice(["unknown", "both", "neither", "extra_kw", "missing", "foreign_inst", "own_inst", "scalar",
-                           "alias_value", "pairs", "both_valid", "wrong_family_alias", "none_nested", "string"])
+                           "alias_value", "pairs", "both_valid", "wrong_family_alias", "none_nested", "string", "cls_kw"])
         d = dict(doc) if isinstance(doc, dict) else {"name": doc}
         key = "alias" if "alias" in d else "name"
         if choice == "unknown":
@@ -578,6 +594,11 @@ class Gen:
             return choice, fam, d
         if choice == "extra_kw":
             d["c08_unknown_keyword"] = 1
+            return choice, fam, d
+        if choice == "cls_kw":
+            d["cls"] = r.choice([1, "mel", None])
+            if r.random() < 0.3:
+                d[key] = "zz-no-such-alias"
             return choice, fam, d
         if choice == "missing":
             c = w.by_id[g["cid"]]
@@ -626,13 +647,22 @@ class Gen:
         return None
 
 
+TYPES = {
+    "tree_case_ok": "list (ctree * list (Z * string * option Z))",
+    "tree_as_graph_ok": "list (ctree * list (Z * string * option Z))",
+    "graph_case_ok": "list (graph * list (Z * string * option Z))",
+    "cfg_case_ok reg": "list (Z * cfg * res val)",
+    "arg_case_ok reg": "list (Z * val * res val)",
+}
+
+
 def coq_compare(ctx, name, terms, checker, extra=""):
     """Let Coq evaluate the model on the cases; returns list of mismatching indices or None on error."""
     shard = 300
     files = []
     for i in range(0, len(terms), shard):
-        body = "Definition cases := [\n%s\n].\n%sEval vm_compute in (mismatches (%s) cases).\n" % (
-            ";\n".join(terms[i:i + shard]), extra, checker)
+        body = "Definition cases : %s := [\n%s\n].\n%sEval vm_compute in (mismatches (%s) cases).\n" % (
+            TYPES[checker], ";\n".join(terms[i:i + shard]), extra, checker)
         files.append(("%s_%d" % (name, i // shard), body))
     res = C.coq_eval_many(ctx, files, REQ)
     bad = []
@@ -725,19 +755,35 @@ def twin_features(ctx, w, gen, g, np):
         return None
     rs = np.random.RandomState(ctx.rng.randint(0, 2 ** 31 - 1))
     sig = rs.randn(ctx.rng.choice([800, 1600, 2477]))
-    fa, fb = a.compute_full(sig), b.compute_full(sig)
-    if fa.shape != fb.shape or fa.dtype != fb.dtype or fa.tobytes() != fb.tobytes():
-        return "features differ (shape %s vs %s, max abs diff %s)" % (
-            fa.shape, fb.shape, float(np.max(np.abs(fa - fb))) if fa.shape == fb.shape and fa.size else "n/a")
-    # the same through chunked computation
-    ca = np.concatenate([a.compute_chunk(sig[:700]), a.compute_chunk(sig[700:]), a.finalize()])
-    cb = np.concatenate([b.compute_chunk(sig[:700]), b.compute_chunk(sig[700:]), b.finalize()])
-    if ca.tobytes() != cb.tobytes():
-        return "chunked features differ"
+
+    def feats(c):
+        try:
+            full = c.compute_full(sig)
+            chunked = np.concatenate([c.compute_chunk(sig[:700]), c.compute_chunk(sig[700:]), c.finalize()])
+            return ("ok", full.shape, str(full.dtype), full.tobytes(), chunked.shape, chunked.tobytes())
+        except Exception as e:  # noqa: BLE001
+            return ("raises", type(e).__name__)
+
+    fa, fb = feats(a), feats(b)
+    if fa[0] == "raises" and fb[0] == "raises":
+        ctx.count("twin:both-raise-" + fa[1])
+    if fa != fb:
+        return "features differ: alias-built %s, explicit %s" % (fa[:3] if fa[0] == "ok" else fa, fb[:3] if fb[0] == "ok" else fb)
     return None
 
 
 def run(ctx):
+    try:
+        return _run(ctx)
+    except Exception as e:  # noqa: BLE001
+        import traceback
+
+        ctx.fail("the check itself failed: %r" % (e,), dict(error=repr(e), traceback=traceback.format_exc()[-3000:]),
+                 kind="tie", no_input=True)
+        return C.finish(ctx, "proof")
+
+
+def _run(ctx):
     C.ensure_impl_path()
     import warnings
 
@@ -828,7 +874,8 @@ def run(ctx):
     # ---- (b), (c) alias_factory_subclass_from_arg and nested configurations
     gen = Gen(ctx, w, spy)
     n_cfg = ctx.scale(260, 4000)
-    cfg_terms, cfg_objs, arg_terms, arg_objs = [], [], [], []
+    cfg_terms, cfg_objs, arg_terms, arg_objs, arg_expected = [], [], [], [], []
+    cfg_parts, arg_parts = [], []
     discarded = 0
     twin_done = 0
     twin_budget = ctx.scale(60, 600)
@@ -871,6 +918,7 @@ def run(ctx):
         try:
             cfg_terms.append("(%d, %s, %s)" % (fam, gen.cfg_term(g), cres(out if out[0] == "ok" else ("err", out[1].split(":")[0]))))
             cfg_objs.append(jobj)
+            cfg_parts.append((str(fam), gen.cfg_term(g)))
         except (NotRenderable, ValueError):
             ctx.count("cfg:not-renderable")
         # JSON twin: bit-identical features
@@ -885,15 +933,21 @@ def run(ctx):
                 bad.append(("json_twin", dict(document=doc, config=gen.cfg_json(g), problem=msg)))
         # perturbed variants
         for _ in range(2):
-            pv = gen.perturb(fam, doc, g)
+            pv = gen.perturb(fam, json.loads(json.dumps(gen.to_json(g))), g)
             if pv is None:
                 continue
             label, f2, arg = pv
+            try:
+                argd = copy.deepcopy(arg) if not gen.has_instance(arg) else spy.describe(arg)
+            except NotRenderable:
+                argd = None
             out2, mutated2, obj2 = gen.run_from_arg(f2, arg)
             ctx.count("arg:" + label + ":" + (out2[0] if out2[0] == "ok" else out2[1]))
             try:
-                argd = spy.describe(arg)
-                term = "(%d, %s, %s)" % (f2, cval(argd), cres(out2 if out2[0] == "ok" else ("err", out2[1].split(":")[0])))
+                if argd is None:
+                    raise NotRenderable("argument")
+                expected = cres(out2 if out2[0] == "ok" else ("err", out2[1].split(":")[0]))
+                term = "(%d, %s, %s)" % (f2, cval(argd), expected)
             except (NotRenderable, ValueError):
                 ctx.count("arg:not-renderable")
                 continue
@@ -905,11 +959,16 @@ def run(ctx):
                 bad.append(("mapping_modified", dict(family=w.by_id[f2]["name"], argument_after=arg, label=label)))
             if label == "own_inst" and obj2 is not arg:
                 bad.append(("instance_not_returned_unchanged", dict(family=w.by_id[f2]["name"], instance=aobj["arg"])))
+            if out2[0] == "err" and out2[2] == "body":
+                ctx.count("arg:value-level-error-not-modelled")
+                continue
             if out2[0] == "err" and out2[1].startswith("Other"):
                 bad.append(("unexpected_exception", dict(family=w.by_id[f2]["name"], arg=aobj["arg"], error=out2[1])))
                 continue
             arg_terms.append(term)
             arg_objs.append(aobj)
+            arg_expected.append(expected)
+            arg_parts.append((str(f2), cval(argd)))
     if n_cfg and discarded > 0.5 * n_cfg:
         ctx.fail("more than half of the generated configurations are rejected by the constructors (%d of %d)" % (discarded, n_cfg),
                  dict(discarded=discarded), kind="tie", no_input=True)
@@ -923,18 +982,14 @@ def run(ctx):
             real = []
             for k in mism:
                 if objs[k]["kind"] == "arg":
-                    t = terms[k]
-                    fam_s, rest = t[1:].split(", ", 1)
-                    arg_s = rest.rsplit(", (", 1)[0]
+                    fam_s, arg_s = arg_parts[k]
                     ans = model_answer(ctx, "from_arg reg corr_fuel %s %s" % (fam_s, arg_s))
                     if "Unmodelled" in ans:
                         ctx.count("arg:unmodelled")
                         continue
                     objs[k]["model"] = ans
                 else:
-                    t = terms[k]
-                    fam_s, rest = t[1:].split(", ", 1)
-                    cfg_s = rest.rsplit(", (", 1)[0]
+                    fam_s, cfg_s = cfg_parts[k]
                     objs[k]["model"] = model_answer(ctx, "(from_arg reg corr_fuel %s (to_json %s), explicit reg corr_fuel %s)" % (fam_s, cfg_s, cfg_s))
                 real.append(k)
                 if len(real) >= 5:
@@ -945,8 +1000,7 @@ def run(ctx):
                          dict(case=objs[k]), kind="correspondence")
         # negative control for the value comparator
         if arg_terms:
-            t = arg_terms[0]
-            flipped = t.rsplit(", (", 1)[0] + ", (Err Unmodelled))"
+            flipped = arg_terms[0][:arg_terms[0].rindex(arg_expected[0])] + "(Err Unmodelled))"
             mism, log = coq_compare(ctx, "canary_arg", [flipped], "arg_case_ok reg")
             if mism != [0]:
                 ctx.fail("negative control of the value comparator did not fire", dict(correspondence="canary_arg", got=mism), kind="tie", no_input=True)
